@@ -168,7 +168,9 @@ pub fn generate(g: &mut Gen) {
         }
     }
     // 2. corpus: transactions of every block (quick: the first 2 of each block)
-    for (_name, bytes) in fx::hex_files("block") {
+    let mut all_blocks: Vec<Vec<u8>> = fx::hex_files("block").into_iter().map(|x| x.1).collect();
+    all_blocks.extend(fx::chunk_blocks(if g.thorough() { 10 } else { 500 }));
+    for bytes in all_blocks {
         if bytes.len() > 400_000 { continue; }
         let Some(rb) = fx::split_block(&bytes) else { continue };
         let era = fx::era_kind_of_tag(rb.tag);
